@@ -85,7 +85,9 @@ ClauseC08(r) ==
         ELSE ""
 
 ClauseC09(r) ==
-   IF r.raised # "none" THEN (IF r.pipeline THEN "pipeline-" \o r.raised ELSE "")
+   \* a pipeline chosen by the factory must accept every intermediate problem it produces; other
+   \* exceptions of a stage are compiler failures (C08), not kind containment
+   IF r.raised # "none" THEN (IF r.pipeline /\ r.stage_rejected THEN "pipeline-stage-rejects-intermediate-problem" ELSE "")
    ELSE IF r.pipeline THEN ""
    ELSE IF r.declared_exc # "none" THEN "resulting-kind-raises-" \o r.declared_exc
    ELSE LET extra == SeqSet(r.qkind) \ SeqSet(r.declared) IN
